@@ -84,8 +84,12 @@ impl<DB: Database> Inspector<DB> for Both {
         outcome
     }
     fn eofcreate(&mut self, _c: &mut EvmContext<DB>, inputs: &mut EOFCreateInputs) -> Option<CreateOutcome> {
+        self.rec.creates += 1;
         self.rec.events.push(Ev::EofCreate(Box::new(inputs.clone())));
-        None
+        match self.rec.cut_create {
+            Some((k, r)) if k == self.rec.creates => Some(CreateOutcome::new(InterpreterResult { result: r, output: Bytes::new(), gas: Gas::new(inputs.gas_limit) }, None)),
+            _ => None,
+        }
     }
     fn eofcreate_end(&mut self, _c: &mut EvmContext<DB>, inputs: &EOFCreateInputs, outcome: CreateOutcome) -> CreateOutcome {
         self.rec.events.push(Ev::EofCreateEnd(Box::new(inputs.clone()), outcome.result.result));
@@ -315,7 +319,71 @@ fn run_generic(ctx: &Ctx, which: u8) -> Acc {
             a
         })
         .collect();
-    merge_all(accs)
+    let mut acc = merge_all(accs);
+    // OSAKA: EOF drivers (EOFCREATE of succeeding / reverting init containers, EXTCALL, EXTDELEGATECALL to
+    // a legacy target, EXTSTATICCALL to a writer, an EOF creation transaction) x inspector behaviours
+    for (name, code) in eof_drivers() {
+        for var in [TxVar::Legacy, TxVar::Value1, TxVar::CreateTx] {
+            let Some(mut case) = make_case(SpecId::OSAKA, var, &code) else { continue };
+            case.tx.gas_limit = 3_000_000;
+            for (cc, cr) in &cuts {
+                let (o, ext) = exec_both(&case, *cc, *cr);
+                acc.evaluations += 1;
+                acc.states += 1;
+                acc.transitions += ext.rec.events.len() as u64;
+                acc.bump("eof_driver_cases", 1);
+                let v = if which == 29 { check_balanced(&o, &ext) } else { check_selfdestruct(&o, &ext) };
+                acc.distinct(&(name, &o.class, &o.reason, ext.mon.attempts.len()));
+                acc.outcome(&format!("eof:{name}:{:?}", o.class));
+                for (k, m) in v {
+                    acc.violation(Violation { key: k, msg: format!("OSAKA {var:?} EOF driver {name} cut={cc:?}/{cr:?}: {m}"), case: json!({"program": name, "case": case, "cut_call": cc.map(|(k, r)| (k, format!("{r:?}"))), "cut_create": cr.map(|(k, r)| (k, format!("{r:?}")))}) });
+                }
+            }
+        }
+    }
+    acc
+}
+/// EOF containers used as the executing contract (or, for the creation transaction, as init container)
+fn eof_drivers() -> Vec<(&'static str, Vec<u8>)> {
+    use crate::props::c26::{sub_init, sub_runtime, Cont};
+    let mut v = vec![];
+    let eofcreate = |sub: Vec<u8>| {
+        let mut c = Cont::simple(vec![0x5f, 0x5f, 0x5f, 0x5f, 0xec, 0x00, 0x50, 0x00], 4);
+        c.containers = vec![sub];
+        c.raw()
+    };
+    v.push(("eofcreate-ok", eofcreate(sub_init())));
+    // init container that reverts
+    let mut rev = Cont::simple(vec![0x5f, 0x5f, 0xfd], 2);
+    rev.containers = vec![];
+    v.push(("eofcreate-revert", eofcreate(rev.raw())));
+    let ext = |opc: u8, target: Address, with_value: bool| {
+        let mut code = vec![];
+        if with_value {
+            code.push(0x5f);
+        }
+        code.extend_from_slice(&[0x5f, 0x5f, 0x73]);
+        code.extend_from_slice(target.as_slice());
+        code.extend_from_slice(&[opc, 0x50, 0x00]);
+        Cont::simple(code, if with_value { 4 } else { 3 }).raw()
+    };
+    v.push(("extcall-ok", ext(0xf8, BOK, true)));
+    v.push(("extcall-revert", ext(0xf8, BREV, true)));
+    v.push(("extdelegatecall-legacy-target", ext(0xf9, BOK, false)));
+    v.push(("extstaticcall-writer", ext(0xfb, BWRITE, false)));
+    // two EOFCREATEs and a call in one frame
+    {
+        let mut code = vec![0x5f, 0x5f, 0x5f, 0x5f, 0xec, 0x00, 0x50, 0x5f, 0x5f, 0x5f, 0x73];
+        code.extend_from_slice(BLOG.as_slice());
+        code.extend_from_slice(&[0xf8, 0x50, 0x5f, 0x5f, 0x5f, 0x5f, 0xec, 0x00, 0x50, 0x00]);
+        let mut c = Cont::simple(code, 4);
+        c.containers = vec![sub_init()];
+        v.push(("eofcreate-extcall-eofcreate", c.raw()));
+    }
+    // as a creation transaction: the init container itself
+    v.push(("init-container", sub_init()));
+    let _ = sub_runtime;
+    v
 }
 
 fn parse_cut(v: &Value) -> Option<(usize, InstructionResult)> {
@@ -343,7 +411,7 @@ pub fn replay30(case: &Value) -> Vec<Violation> {
 pub fn run29(ctx: &Ctx) -> i32 {
     let acc = run_generic(ctx, 29);
     let meta = Meta {
-        rule: "every macro program of depth <= 2 over the inspector alphabet (general alphabet + low-gas / value / static calls to a self-destructing contract, a depth-limit probe, a bare SELFDESTRUCT) x 5 transaction variants x 7 inspector behaviours (observe only; return an outcome from the 1st/2nd/3rd call or 1st/2nd create) on 7 (quick) / 19 (thorough) specs; distinct = distinct (spec, result, frame count, selfdestructs, logs)".into(),
+        rule: "every macro program of depth <= 2 over the inspector alphabet (general alphabet + low-gas / value / static calls to a self-destructing contract, a depth-limit probe, a bare SELFDESTRUCT) x 5 transaction variants x 7 inspector behaviours (observe only; return an outcome from the 1st/2nd/3rd call or 1st/2nd create) on 7 (quick) / 19 (thorough) specs, plus 8 EOF driver containers (EOFCREATE of succeeding / reverting init containers, EXTCALL, EXTDELEGATECALL to a legacy target, EXTSTATICCALL, an EOF creation transaction) under OSAKA; distinct = distinct (spec, result, frame count, selfdestructs, logs)".into(),
         assumptions: vec!["ground truth for executed instructions, appended logs and frame attempts comes from the harness monitor registered underneath the inspector".into(), "database errors between a notification and its end are outside the quantifier".into()],
         bounds: json!({"depth": 2, "macros": insp_alphabet().len(), "inspector_behaviours": 7}),
         min_distinct: 200,
